@@ -39,6 +39,8 @@ def is_open(model: Model, op) -> bool:
                     and model.first_joining_before_awkward(op[2], op[4]) is None)
         if k == "unlink":
             return not model._all_plain_at(op[1])
+        if k == "other":
+            return len(model.L[op[1]]["verts"]) != 2
     except KeyError:
         return False
     return False
@@ -209,7 +211,7 @@ class Engine:
                 elif exp.any_of is not None:
                     if real[1] not in exp.any_of:
                         viol("return_value", f"returned {real[1]}, expected one of the joining links {exp.any_of}")
-                elif op[0] in ("link", "unlink") and real[1] != exp.value:
+                elif op[0] in ("link", "unlink", "other") and real[1] != exp.value:
                     viol("return_value", f"returned {real[1]}, expected {exp.value}")
         return n0 == len(self.findings)
 
